@@ -83,6 +83,16 @@ LEAVES = [
     ("Reply", "out_id_zero", "_protocol/outgoing.py", "DNSOutgoing.packets", ("if", "self.multicast", 0),
      [P("self.multicast", "multicast", "bool")], "bool", {}),
     # ---- answers.py
+    # ---- incoming.py `_read_questions`: "has a QU question" is sticky -- set (to True) by any unique question
+    ("Reply", "in_qu_flag_test", "_protocol/incoming.py", "DNSIncoming._read_questions", ("if", "question.unique", 0),
+     [P("question.unique", "unique", "bool")], "bool", {}),
+    ("Reply", "in_qu_flag_value", "_protocol/incoming.py", "DNSIncoming._read_questions", ("assign", "self._has_qu_question", 0),
+     [P("question.unique", "unique", "bool")], "bool", {}),
+    # ---- answers.py: the `multicast` constructor argument of the two reply constructors
+    ("Reply", "ans_unicast_multicast_arg", "_handlers/answers.py", "construct_outgoing_unicast_answers", ("arg", "DNSOutgoing", 1, 0),
+     [P("id_", "id_"), P("ucast_source", "ucast_source", "bool")], "bool", {}),
+    ("Reply", "ans_multicast_multicast_arg", "_handlers/answers.py", "construct_outgoing_multicast_answers", ("arg", "DNSOutgoing", 1, 0),
+     [], "bool", {}),
     ("Reply", "ans_echo_questions", "_handlers/answers.py", "construct_outgoing_unicast_answers", ("if", "ucast_source", 0),
      [P("ucast_source", "ucast_source", "bool")], "bool", {}),
     # ---- _utils/net.py
